@@ -766,10 +766,18 @@ func (r *Raft) submitReadOnlyOperation(
 		return operationFuture
 	}
 
+	// Until this leader has committed an entry from its own term its commit index
+	// may lag behind entries committed by a previous leader. All of those entries
+	// are in its log, so wait for everything in the log to be applied instead.
+	readIndex := r.commitIndex
+	if !r.committedThisTerm() {
+		readIndex = r.log.LastIndex()
+	}
+
 	operation := &Operation{
 		Bytes:         operationBytes,
 		OperationType: readOnlyType,
-		readIndex:     r.commitIndex,
+		readIndex:     readIndex,
 		verifyRound:   r.heartbeatRound + 1,
 	}
 	r.operationManager.pendingReadOnly[operation] = operationFuture.responseCh
